@@ -14,6 +14,8 @@ import (
 type ExpoCase struct {
 	W    *World
 	Tape []uint32
+	// Twice: the exposure run analyses the input twice on one analyzer and the second result is judged
+	Twice bool `json:",omitempty"`
 }
 
 func genExpo(t *rapid.T) *ExpoCase {
@@ -24,7 +26,7 @@ func genExpo(t *rapid.T) *ExpoCase {
 	} else {
 		w = GenExposureWorld(t)
 	}
-	return &ExpoCase{W: w, Tape: rapid.SliceOfN(rapid.Uint32Range(0, 1<<20), 200, 600).Draw(t, "tape")}
+	return &ExpoCase{W: w, Tape: rapid.SliceOfN(rapid.Uint32Range(0, 1<<20), 200, 600).Draw(t, "tape"), Twice: rapid.IntRange(0, 3).Draw(t, "twice") == 0}
 }
 
 func xentryStr(e *XEntry) string {
@@ -40,14 +42,14 @@ type expoRun struct {
 }
 
 // runExpo runs plain list and list --exposure; skip=true when the plain run cannot analyse the input.
-func runExpo(w *World, st *VStats) (r *expoRun, skip bool, f *VFailure) {
+func runExpo(w *World, st *VStats, twice ...bool) (r *expoRun, skip bool, f *VFailure) {
 	dir := w.WriteDir()
 	defer os.RemoveAll(dir)
 	base := RunList(dir, ListOpts{})
 	if base.Panic != nil {
 		return nil, false, &VFailure{Msg: fmt.Sprintf("list panicked: %v", base.Panic), Sig: "panic"}
 	}
-	xr := RunList(dir, ListOpts{Exposure: true})
+	xr := RunList(dir, ListOpts{Exposure: true, Twice: len(twice) > 0 && twice[0]})
 	if xr.Panic != nil {
 		return nil, false, &VFailure{Msg: fmt.Sprintf("list --exposure panicked: %v", xr.Panic), Sig: "panic"}
 	}
@@ -112,7 +114,7 @@ func hypoPoints(w *World, H *Workload, conn *XConn) []int {
 
 func checkC06(c *ExpoCase, st *VStats) *VFailure {
 	w := c.W
-	r, skip, f := runExpo(w, st)
+	r, skip, f := runExpo(w, st, c.Twice)
 	if f != nil || skip {
 		return f
 	}
